@@ -31,7 +31,11 @@ func c13Jobs(tier string, seed int64) []string {
 		steps = 3
 	}
 	for i := range c13Ops {
-		jobs = append(jobs, "hist:"+strconv.Itoa(steps)+":"+strconv.Itoa(i))
+		st := steps
+		if st == 3 && !(c13Ops[i] == "put" || c13Ops[i] == "replaceOut") {
+			st = 2 // histories of three operations: ~7000 paths with all observers each; two first operations
+		}
+		jobs = append(jobs, "hist:"+strconv.Itoa(st)+":"+strconv.Itoa(i))
 	}
 	// keys that are no identifiers (empty, blank, with quotes) through every observer that takes or shows key strings
 	jobs = append(jobs, "oddkeys:0:0")
